@@ -191,9 +191,12 @@ def random_set(rnd, n):
 
 
 # ------------------------------------------------------------------------------------------------ query
-QKEYS = ("seqid", "biotype", "name", "strand", "attributes", "on_alignment", "start", "stop", "allow_partial")
+QKEYS = ("seqid", "biotype", "name", "strand", "attributes", "start", "stop", "allow_partial")
+# on_alignment is deliberately not a query argument here: the property statement lists seqid, biotype, name,
+# strand, attributes and the coordinate window (on Gff/Genbank dbs the column does not exist and the query
+# raises; that is outside what C17 states).  The on_alignment *column* is still compared in every returned record.
 VALUES = {"seqid": ["s1", "s2", "zz"], "biotype": ["gene", "exon"], "name": ["g1"], "strand": ["+", "-"],
-          "attributes": ["kinase"], "on_alignment": [True, False]}
+          "attributes": ["kinase"]}
 
 
 def windows(full):
@@ -282,7 +285,7 @@ def run_query(db, items, q, method):
 
 
 def query_pattern(q):
-    args = [k for k in QKEYS[:6] if q.get(k) is not None]
+    args = [k for k in QKEYS[:5] if q.get(k) is not None]
     S, E = q.get("start"), q.get("stop")
     win = "none" if S is None and E is None else "start-only" if E is None else "stop-only" if S is None else \
         "empty-window" if S == E else "window"
@@ -299,7 +302,7 @@ def minimise_query(db, items, q, method, kind):
     same = lambda r: r is not None and r[0].split("[")[0] == kind.split("[")[0]
     if method == "num_matches":
         q.update(start=None, stop=None, allow_partial=False)
-    for k in QKEYS[:6]:
+    for k in QKEYS[:5]:
         if q.get(k) is None:
             continue
         trial = dict(q, **{k: None})
